@@ -21,24 +21,38 @@ Inductive sexpr :=
 | XAssign (x : nat) (e : sexpr)                   (* x = e *)
 | XCall (f : sexpr) (args : list sexpr)           (* f(args) *)
 | XArr (items : list sexpr)                       (* [items] *)
-| XFun (params locals : list nat) (body : list sexpr)   (* function (params) { var locals; body } , arrows *)
-| XClass (ext : option sexpr) (methods : list sexpr).   (* class extends ext { m() { .. } ... } : methods are XFun *)
+(* function (p1 = d1, ..) { var locals; body }: the default values live in the
+   parameter scope (they see the parameters, NOT the body's vars); arrows alike *)
+| XFun (params : list nat) (defaults : list sexpr) (locals : list nat) (body : list sexpr)
+(* class extends ext { members }: members are XFun (methods), XField, XStaticBlock *)
+| XClass (ext : option sexpr) (members : list sexpr)
+| XField (static : bool) (key : option sexpr) (init : option sexpr)   (* [key] = init;  computed key optional *)
+| XStaticBlock (locals : list nat) (body : list sexpr).               (* static { var locals; body } *)
 
 (* a binding element of an array pattern: name and optional default *)
 Definition selem := (nat * option sexpr)%type.
+(* a property of an object pattern: optional computed key, bound name, optional default *)
+Definition sprop := (option sexpr * nat * option sexpr)%type.
 
-Inductive spat := PId (x : nat) | PArr (items : list selem).
+Inductive spat := PId (x : nat) | PArr (items : list selem) | PObj (props : list sprop).
 
 Inductive sstmt :=
 | SSLocal (decls : list (spat * option sexpr))                (* var/let/const p = e, ... *)
-| SSFunction (name : nat) (params locals : list nat) (body : list sexpr)
-| SSClass (name : nat) (ext : option sexpr) (methods : list sexpr)
+| SSFunction (name : nat) (params : list nat) (defaults : list sexpr) (locals : list nat) (body : list sexpr)
+| SSClass (name : nat) (ext : option sexpr) (members : list sexpr)
 | SSExpr (e : sexpr)
 | SSIf (e : sexpr)                                            (* if (e) { } *)
-| SSTry (e : sexpr)                                           (* try { e } catch { } *)
+(* try { e } catch (c) { handler }: the catch binding is scoped to the handler *)
+| SSTry (e : sexpr) (catch : option (option nat * list sexpr))
 | SSBlockVar (x : nat) (e : sexpr)                             (* { var x = e; } : the nested var is hoisted to the module
                                                                  scope, also when it redeclares a top-level var or function
                                                                  (recordDeclaredSymbol follows the Link chain, fix 0bc1420) *)
+(* loops and labels: [outer] expressions see the module scope only, [inner]
+   expressions also the block-scoped [binders] (for-let head and body, for-let-of /
+   for-let-in head, iterable and body); [hoisted] are `var` names declared in a
+   head, which belong to the module scope. [kind] only selects the concrete syntax:
+   0 for(let;;) 1 for(let of) 2 for(let in) 3 for(var of) 4 for(var;;) 5 label 6 while *)
+| SSCompound (kind : nat) (outer : list sexpr) (binders : list nat) (inner : list sexpr) (hoisted : list nat)
 | SSImport (names : list nat)                                 (* import { .. as n } from / import "m" *)
 | SSExportStar.                                               (* export * from *)
 
@@ -53,42 +67,70 @@ Fixpoint fv (bound : list nat) (e : sexpr) : list nat :=
   | XAssign x v => (if nmem x bound then [] else [x]) ++ fv bound v
   | XCall f args => fv bound f ++ flat_map (fv bound) args
   | XArr items => flat_map (fv bound) items
-  | XFun params locals body => flat_map (fv (params ++ locals ++ bound)) body
-  | XClass ext methods =>
-    (match ext with Some x => fv bound x | None => [] end) ++ flat_map (fv bound) methods
+  | XFun params defaults locals body =>
+    flat_map (fv (params ++ bound)) defaults ++ flat_map (fv (params ++ locals ++ bound)) body
+  | XClass ext members =>
+    (match ext with Some x => fv bound x | None => [] end) ++ flat_map (fv bound) members
+  | XField _ key init =>
+    (match key with Some k => fv bound k | None => [] end) ++ (match init with Some v => fv bound v | None => [] end)
+  | XStaticBlock locals body => flat_map (fv (locals ++ bound)) body
   end.
 
 Definition fv_opt (o : option sexpr) : list nat := match o with Some e => fv [] e | None => [] end.
 
 Definition pat_names (p : spat) : list nat :=
-  match p with PId x => [x] | PArr items => map fst items end.
+  match p with
+  | PId x => [x]
+  | PArr items => map fst items
+  | PObj props => map (fun pr => snd (fst pr)) props
+  end.
 Definition pat_uses (p : spat) : list nat :=
-  match p with PId _ => [] | PArr items => flat_map (fun it => fv_opt (snd it)) items end.
+  match p with
+  | PId _ => []
+  | PArr items => flat_map (fun it => fv_opt (snd it)) items
+  | PObj props => flat_map (fun pr => fv_opt (fst (fst pr)) ++ fv_opt (snd pr)) props
+  end.
 
 (* translation to the classifier's tree type (only what decides removability) *)
-Fixpoint to_node (e : sexpr) : node :=
+Definition method_prop : node := PProp KMethod false false false false (EStr []) (Some EFunction) None [].
+
+(* [bound]: names declared by an enclosing static block (function bodies are
+   opaque to the classifier). A reference to such a local is a reference to a
+   declared symbol: for the classifier it behaves like `this` (removable, type
+   unknown), which is how it is rendered. *)
+Fixpoint to_node (bound : list nat) (e : sexpr) : node :=
   match e with
   | XLit => ENum 0
-  | XId x => EIdent x false false
-  | XTypeof x => EUnary UTypeof (EIdent x false false) true
-  | XAssign x v => EBinary BAssign (EIdent x false false) (to_node v)
-  | XCall f args => ECall (to_node f) (map to_node args) false
-  | XArr items => EArray (map to_node items)
-  | XFun _ _ _ => EFunction
-  | XClass ext methods =>
-    EClass (CClass false (option_map to_node ext)
-              (map (fun _ => PProp KMethod false false false false (EStr []) (Some EFunction) None []) methods) true)
+  | XId x => if nmem x bound then EThis else EIdent x false false
+  | XTypeof x => if nmem x bound then EUnary UTypeof EThis false else EUnary UTypeof (EIdent x false false) true
+  | XAssign x v => EBinary BAssign (EIdent x false false) (to_node bound v)
+  | XCall f args => ECall (to_node bound f) (map (to_node bound) args) false
+  | XArr items => EArray (map (to_node bound) items)
+  | XFun _ _ _ _ => EFunction
+  | XClass ext members =>
+    EClass (CClass false (option_map (to_node bound) ext)
+              (map (fun m => match m with
+                             | XField st key init =>
+                               PProp KField (match key with Some _ => true | None => false end) st false false
+                                     (match key with Some k => to_node bound k | None => EStr [] end)
+                                     None (option_map (to_node bound) init) []
+                             | XStaticBlock locals body =>
+                               PProp KStaticBlock false false false false ENull None None
+                                     (map (fun x => SExpr (to_node (locals ++ bound) x) false) body)
+                             | _ => method_prop
+                             end) members) true)
+  | XField _ _ _ | XStaticBlock _ _ => EOther     (* only meaningful as class members *)
   end.
 
 Definition pat_node (p : spat) : node :=
   match p with
   | PId _ => BIdent
-  | PArr items => BArray (map (fun it => BItem BIdent (option_map to_node (snd it))) items)
+  | PArr items => BArray (map (fun it => BItem BIdent (option_map (to_node []) (snd it))) items)
+  | PObj _ => BOtherBinding
   end.
 
-Definition class_node (ext : option sexpr) (methods : list sexpr) : node :=
-  CClass false (option_map to_node ext)
-    (map (fun _ => PProp KMethod false false false false (EStr []) (Some EFunction) None []) methods) true.
+Definition class_node (ext : option sexpr) (members : list sexpr) : node :=
+  match to_node [] (XClass ext members) with EClass c => c | _ => SOther end.
 
 Definition zs (x : nat) : sym := (O, x).
 
@@ -105,14 +147,20 @@ Section Analyze.
     match s with
     | SSLocal decls =>
       TLocal (map (fun d => decl_of (pat_names (fst d)) (pat_uses (fst d) ++ fv_opt (snd d))
-                                    (SLocal LConst [DDecl (pat_node (fst d)) (option_map to_node (snd d))])) decls)
-    | SSFunction name params locals body =>
-      TOther (decl_of [name] (flat_map (fv (params ++ locals)) body) SFunction)
+                                    (SLocal LConst [DDecl (pat_node (fst d)) (option_map (to_node []) (snd d))])) decls)
+    | SSFunction name params defaults locals body =>
+      TOther (decl_of [name] (fv [] (XFun params defaults locals body)) SFunction)
     | SSClass name ext methods =>
       TOther (decl_of [name] (fv [] (XClass ext methods)) (SClass (class_node ext methods)))
-    | SSExpr e => TOther (decl_of [] (fv [] e) (SExpr (to_node e) false))
+    | SSExpr e => TOther (decl_of [] (fv [] e) (SExpr (to_node [] e) false))
     | SSIf e => TOther (decl_of [] (fv [] e) SOther)
-    | SSTry e => TOther (decl_of [] (fv [] e) (STry [SExpr (to_node e) false] false []))
+    | SSTry e catch =>
+      TOther (decl_of [] (fv [] e ++ match catch with
+                                     | Some (c, handler) => flat_map (fv (match c with Some x => [x] | None => [] end)) handler
+                                     | None => [] end)
+                      (STry [SExpr (to_node [] e) false] false []))
+    | SSCompound _ outer binders inner hoisted =>
+      TOther (decl_of hoisted (flat_map (fv []) outer ++ flat_map (fv binders) inner) SOther)
     | SSBlockVar x e => TOther (decl_of [x] (fv [] e) SOther)
     | SSImport names => TImportLike (decl_of names [] SImport) (mkImp true true O false)
     | SSExportStar => TImportLike (decl_of [] [] SOther) (mkImp true true O false)
@@ -123,8 +171,9 @@ End Analyze.
 Definition stmt_names (s : sstmt) : list nat :=
   match s with
   | SSLocal decls => flat_map (fun d => pat_names (fst d)) decls
-  | SSFunction name _ _ _ | SSClass name _ _ => [name]
+  | SSFunction name _ _ _ _ | SSClass name _ _ => [name]
   | SSBlockVar x _ => [x]
+  | SSCompound _ _ _ _ hoisted => hoisted
   | SSImport names => names
   | _ => []
   end.
